@@ -151,22 +151,28 @@ func handleLogin(w http.ResponseWriter, r *http.Request) {
 		return
 	}
 
+	if rateLimiter := globalContext.auth.rateLimiter; rateLimiter != nil {
+		if left := rateLimiter.check(remoteIP); left > 0 {
+			w.Header().Set(httphdr.RetryAfter, strconv.Itoa(int(left.Seconds())))
+			writeErrorWithIP(
+				r,
+				w,
+				http.StatusTooManyRequests,
+				remoteIP,
+				"auth: blocked for %s",
+				left,
+			)
+
+			return
+		}
+	}
+
 	ip, err := realIP(r)
 	if err != nil {
 		log.Error("auth: getting real ip from request with remote ip %s: %s", remoteIP, err)
 	}
 
-	wasBlocked := false
-	if rl := globalContext.auth.rateLimiter; rl != nil {
-		wasBlocked = rl.check(remoteIP) > 0
-	}
 	cookie, err := globalContext.auth.newCookie(req, remoteIP)
-	if wasBlocked {
-		w.Header().Set(httphdr.RetryAfter, strconv.Itoa(1))
-		writeErrorWithIP(r, w, http.StatusTooManyRequests, remoteIP, "auth: blocked")
-
-		return
-	}
 	if err != nil {
 		logIP := remoteIP
 		if globalContext.auth.trustedProxies.Contains(ip.Unmap()) {
